@@ -2,8 +2,10 @@
     per-entry verdicts.  Theorems about the model Model/EventLogAlign.v of
     pcrbruteforcer.ReproduceEventLog; [Hp m v] is the digest of measurement [m] with its
     first 8 bytes (ACM_POLICY_STATUS in PCR0_DATA) replaced by [v] — an arbitrary
-    function.  [oracle] are the disable bitmaps left by the (unmodelled) brute-force
-    search: every theorem holds for ALL of them. *)
+    function.  [oracle] are the disable bitmaps left by the brute-force search: the theorems
+    about [reproduce] hold for ALL of them; the search itself is modelled at set level
+    ([search_results]: which (distance, bitmaps) results its phases may leave) and the
+    section "The alignment search" states what every such result satisfies. *)
 From CSS Require Import Lib.Base Model.EventLog Model.EventLogAlign Proofs.EventLog Proofs.EventLogAlign.
 
 (** ** Conservation *)
@@ -218,6 +220,65 @@ Theorem C13_distance_zero_iff_partial :
    no_flags cs /\ no_flags es /\ identical (map snd es) (map snd cs) = true).
 Proof. exact distance_zero_iff. Qed.
 Print Assumptions C13_distance_zero_iff_partial.
+
+(** ** The alignment search (bruteForceAlignedEventLogs, the phases behind the early return)
+
+    [search_results es cs maxdist]: the (distance, bitmaps) results the search may leave for
+    recorded events [es], simulated events [cs] and DisabledEventsMaxDistance [maxdist] (the
+    nested BruteForce runs as the sets of bitmaps they enumerate; which of several equally
+    distant candidates is kept depends on the goroutine schedule, so it is a set).
+    Every result: lies in the second-phase space around a first-phase optimum - the recorded
+    bitmap within [maxdist] flips of the first-phase one, the simulated bitmap the first-phase
+    one plus exactly as many entries as the balance of the amounts demands -, reports the
+    distance of its own bitmaps, and NO candidate of that space has a smaller distance: the
+    second phase cannot stop short of an entry it may leave out on both sides. *)
+Theorem C13_search_result_optimal :
+  forall es cs maxdist d p,
+  In (d, p) (search_results es cs maxdist) ->
+  exists d1 p1,
+    In (d1, p1) (argmins (scored es cs (phase1_cands es cs))) /\
+    In p (phase2_space es cs maxdist p1) /\
+    bm_dist es cs p = Some d /\
+    forall p' d', In p' (phase2_space es cs maxdist p1) -> bm_dist es cs p' = Some d' -> d <= d'.
+Proof. exact search_result_optimal. Qed.
+Print Assumptions C13_search_result_optimal.
+
+(** the first phase: of all ways to leave out |amount difference| entries of the longer
+    list, one of minimal distance *)
+Theorem C13_search_first_phase_optimal :
+  forall es cs d1 p1,
+  In (d1, p1) (argmins (scored es cs (phase1_cands es cs))) ->
+  In p1 (phase1_cands es cs) /\ bm_dist es cs p1 = Some d1 /\
+  forall p' d', In p' (phase1_cands es cs) -> bm_dist es cs p' = Some d' -> d1 <= d'.
+Proof. exact search_phase1_optimal. Qed.
+Print Assumptions C13_search_first_phase_optimal.
+
+(** every result is a pair of bitmaps alignLogs accepts (right lengths, equally many events
+    left on both sides): with C13_conservation_any_balanced_bitmaps, conservation holds for
+    whatever the search returns *)
+Theorem C13_search_result_balanced :
+  forall es cs maxdist d p,
+  In (d, p) (search_results es cs maxdist) -> balanced es cs p.
+Proof. exact search_result_balanced. Qed.
+Print Assumptions C13_search_result_balanced.
+
+(** the documented pairing rule is what the metric says: exactly the pairs of events that
+    agree in neither type nor digest cost more than leaving both unpaired (two disabled
+    entries, 2 * BIGN) - so a minimal result pairs such events only when it may not leave
+    out one more entry on both sides *)
+Theorem C13_unrelated_pair_costs_more :
+  forall c e, unrelated c e = true <-> 2 * BIGN < pair_cost c e.
+Proof. exact unrelated_pair_costs_more. Qed.
+Print Assumptions C13_unrelated_pair_costs_more.
+
+(** one entry deleted and another one replaced (foreign type, fresh digest), three simulated
+    events: with DisabledEventsMaxDistance 1 the only result leaves the replaced entry out on
+    both sides (unexpected + missing + missing, distance 3 * BIGN); with 0 it must stay
+    paired (a mismatch, distance 3 * BIGN + 1, either of the two simulated events left out) *)
+Example C13_search_deleted_and_replaced :
+  search_results w_e3 w_s3 1 = [(3 * BIGN, ([false; true], [false; true; true])); (3 * BIGN, ([false; true], [false; true; true]))] /\
+  search_results w_e3 w_s3 0 = [(3 * BIGN + 1, ([false; false], [false; false; true])); (3 * BIGN + 1, ([false; false], [false; true; false]))].
+Proof. exact witness_search_deleted_and_replaced. Qed.
 
 (** ** No panic *)
 
